@@ -29,7 +29,10 @@ import os
 #  switched off when a bandwidth profile exists) lifted; the stored input is kept as regress-bw-increase-crosstraffic.json.)
 #   ti-pstate        cpu/optim:TI ignores a pstate change for the executions already running.  Excluded: no TI configuration when the
 #                    workload changes a pstate.
-OPEN = set(x for x in os.environ.get("VF_C19_OPEN", "ti-profile-start,ti-pstate").split(",") if x)
+#   prio-while-suspended  Exec::update_priority on a SUSPENDED execution re-enables its LMM variable (Lazy, Full: it runs although suspended; TI
+#                    keeps it suspended), and the later resume() then freezes it for good under Lazy.  Excluded: no priority change
+#                    inside a suspension window (bound changes inside a window are generated).
+OPEN = set(x for x in os.environ.get("VF_C19_OPEN", "ti-profile-start,ti-pstate,prio-while-suspended").split(",") if x)
 MARGIN = 1e-6      # a suspend / resume closer than this to the start or the completion of its activity makes the case tie-prone: not decided
 
 
@@ -58,8 +61,130 @@ def profiles(draw, values, ti_ok):
     return {"points": pts, "period": period}
 
 
+def profile_scale(prof, t):
+    """value of an availability profile at date t (right-continuous): the value of the latest point at or before t; points repeat every
+    `period` seconds when period > 0; before the very first point the nominal value 1.0"""
+    pts, per = prof["points"], prof.get("period", -1)
+    if per is not None and per > 0 and t >= per:
+        k = math.floor(t / per)
+        tt = t - k * per
+        v = pts[-1][1]                     # value left by the previous cycle
+    else:
+        tt, v = t, 1.0
+    for d, x in pts:
+        if d <= tt:
+            v = x
+    return v
+
+
+def profile_events(prof, t0, t1):
+    """dates in (t0, t1] at which a point of the profile fires (whether or not the value changes)"""
+    pts, per = prof["points"], prof.get("period", -1)
+    res = []
+    if per is not None and per > 0:
+        k = max(0, math.floor(t0 / per) - 1)
+        while k * per <= t1 and len(res) < 100000:
+            res += [k * per + d for d, _ in pts if t0 < k * per + d <= t1]
+            k += 1
+    else:
+        res = [d for d, _ in pts if t0 < d <= t1]
+    return sorted(set(res))
+
+
 @st.composite
-def workloads(draw):
+def straddle_workloads(draw):
+    """Family aimed at the interplay of suspension and availability: an execution on a host whose speed follows a periodic profile is
+    suspended just before one of the profile's events and resumed just after it (or after several of them), possibly with a priority change
+    made while it is suspended, and then runs alone for a while.  The case keeps the TI model's preconditions so that TI (which integrates
+    the profile itself) is always among the compared configurations."""
+    dyadic = draw(st.booleans())
+    plat = draw(platgen.platforms(n_hosts=(1, 2), cores=(1, 1), max_pstates=1, n_disks=(0, 0), route_len=(1, 2), max_pool=3, dyadic=dyadic,
+                                  speed=platgen.pow2(20, 30) if dyadic else platgen.loguniform(1e6, 1e9),
+                                  bw=platgen.pow2(17, 30) if dyadic else platgen.loguniform(1e5, 1e9),
+                                  lat=st.sampled_from([0.0, 1e-4, 1e-3])))
+    p = Plat(plat)
+    names = [h["name"] for h in plat["hosts"]]
+    case = {"platform": plat, "model": draw(st.sampled_from(["LV08", "CM02", "raw"])), "ti": True, "family": "straddle"}
+    vals = [0.25, 0.5, 0.75, 1.0] if dyadic else [0.25, 0.5, 1.0, 0.3, 0.7, 0.9]
+    # profile of h0: first point at date 0, every point changes the value, the last value is the first one (TI's preconditions)
+    n = draw(st.integers(1, 4))
+    gaps = [draw(st.sampled_from([0.5, 0.75, 1.0, 1.5, 2.0, 3.0])) for _ in range(n)]
+    v0 = draw(st.sampled_from(vals))
+    pts, d, prev = [[0.0, v0]], 0.0, v0
+    for i, g in enumerate(gaps):
+        d += g
+        v = v0 if i == n - 1 else draw(st.sampled_from([x for x in vals if x != prev]))
+        if i == n - 1 and n == 1:
+            # a single later point must differ from v0 to be an event at all: use 3 points instead (v0, v, v0)
+            v = draw(st.sampled_from([x for x in vals if x != v0]))
+            pts.append([d, v])
+            d += draw(st.sampled_from([0.5, 1.0, 2.0]))
+            v = v0
+        pts.append([d, v])
+        prev = v
+    prof = {"points": pts, "period": d + draw(st.sampled_from([0.5, 1.0, 2.0]))}
+    plat["hosts"][0]["speed_profile"] = prof
+    h0 = names[0]
+    S = p.speed(h0)
+    # dates at which the speed of h0 really changes, over the first cycles
+    changes = [e for e in profile_events(prof, 0.0, 4 * prof["period"]) if profile_scale(prof, e) != profile_scale(prof, e - 1e-3)]
+    nh = [0]
+
+    def handle():
+        nh[0] += 1
+        return nh[0]
+    start = draw(st.sampled_from([0.0, 0.0, 0.125, 0.25, 0.6]))
+    now = start
+    ctl = []
+    small = st.sampled_from([0.125, 0.0625, 0.25, 0.05, 0.1])
+    for _ in range(draw(st.sampled_from([1, 1, 2]))):
+        cand = [i for i, e in enumerate(changes) if e - 0.25 > now + 0.01]
+        if not cand:
+            break
+        i = cand[draw(st.integers(0, min(3, len(cand) - 1)))]
+        span = draw(st.sampled_from([0, 0, 0, 1, 2]))
+        j = min(i + span, len(changes) - 1)
+        d1, d2 = draw(small), draw(small)
+        ts, tr = changes[i] - d1, changes[j] + d2
+        c = {"after": ts - now, "do": "suspend", "for": tr - ts}
+        if draw(st.integers(0, 2)) == 0 and "prio-while-suspended" not in OPEN:
+            c["inside"] = [{"after": (tr - ts) * draw(st.sampled_from([0.25, 0.5, 0.75])), "do": "prio", "value": draw(st.sampled_from([0.5, 2.0, 4.0]))}]
+        ctl.append(c)
+        now = tr
+    tail = draw(secs())
+    step = {"op": "exec", "h": handle(), "host": h0, "pause": start, "wait": True, "flops": S * ((now - start) + tail), "ctl": ctl}
+    if draw(st.integers(0, 3)) == 0:
+        step["prio"] = draw(st.sampled_from([0.5, 2.0]))
+    actors = [{"host": h0, "steps": [step]}]
+    # company: other actors, on the other host most of the time (so that the execution is alone after its resume), sometimes on h0
+    for _ in range(draw(st.integers(0, 2))):
+        host = draw(st.sampled_from(names[1:] * 3 + [h0])) if len(names) > 1 else (h0 if draw(st.integers(0, 2)) == 0 else None)
+        if host is None:
+            continue
+        steps = []
+        for _ in range(draw(st.integers(1, 3))):
+            kind = draw(st.sampled_from(["exec", "exec", "sleep"] + (["comm"] if len(names) > 1 else [])))
+            s2 = {"op": kind, "pause": draw(pauses())}
+            dd = draw(secs())
+            if kind == "exec":
+                s2.update(h=handle(), wait=draw(st.booleans()), host=host, flops=dd * p.speed(host), ctl=[])
+            elif kind == "comm":
+                s2.update(h=handle(), wait=draw(st.booleans()), dst=draw(st.sampled_from([x for x in names if x != host])), rdelay=draw(pauses()))
+                s2["size"] = max(1, int(dd * min(p.links[l]["bw"] for l in p.route(host, s2["dst"]))))
+            steps.append(s2)
+        actors.append({"host": host, "steps": steps})
+    case["actors"] = actors
+    nets = ["Lazy", "LazySel", "Full", "FullSel", "FullNoSel"]
+    case["configs"] = [["TI", draw(st.sampled_from(nets))], [draw(st.sampled_from(["Full", "FullSel", "FullNoSel", "LazySel"])), draw(st.sampled_from(nets))]]
+    return case
+
+
+def workloads():
+    return st.one_of(general_workloads(), general_workloads(), straddle_workloads())
+
+
+@st.composite
+def general_workloads(draw):
     dyadic = draw(st.integers(0, 4)) == 0
     ti = draw(st.integers(0, 2)) == 0         # keep the case inside the TI model's preconditions
     plat = draw(platgen.platforms(n_hosts=(1, 3), cores=(1, 1) if ti else (1, 4), max_pstates=2, n_disks=(0, 0), route_len=(1, 3), max_pool=5,
@@ -124,6 +249,12 @@ def workloads(draw):
                          "do": draw(st.sampled_from(["suspend", "suspend", "prio"] + ([] if ti else ["bound"])))}
                     if c["do"] == "suspend":
                         c["for"] = draw(st.one_of(st.integers(1, 16).map(lambda k: k / 8), st.floats(0.01, 2.0)))
+                        what = ([] if ti or "threads" in s else ["bound"]) + ([] if "prio-while-suspended" in OPEN or "threads" in s else ["prio"])
+                        if what and draw(st.integers(0, 3)) == 0:       # a change made while the execution is suspended
+                            w = draw(st.sampled_from(what))
+                            c["inside"] = [{"after": c["for"] * draw(st.sampled_from([0.25, 0.5, 0.75])), "do": w,
+                                            "value": draw(st.sampled_from([0.5, 2.0, 4.0])) if w == "prio" else
+                                            sp * draw(st.sampled_from([0.125, 0.25, 0.5, 1.0, 2.0]))}]
                     elif c["do"] == "prio":
                         c["value"] = draw(st.sampled_from([0.5, 1.0, 2.0, 4.0]))
                         if c["value"] == cur_prio and "lazy-same-prio" in OPEN:
@@ -219,20 +350,29 @@ class C19(core.Prop):
                 if s["op"] == "pstate":
                     ops.append(["set_pstate", s["host"], s["pstate"]])
                     continue
+                if s["op"] == "raw":          # replay files only: interpreter operations given verbatim
+                    ops += s["ops"]
+                    continue
                 h = s["h"]
                 if s["op"] == "exec":
                     opts = {"host": s["host"]}
                     for k in ("bound", "prio", "threads"):
                         if k in s:
                             opts[k] = s[k]
-                    meta[h] = {"kind": "exec", "actor": name, "host": s["host"]}
+                    meta[h] = {"kind": "exec", "actor": name, "host": s["host"], "flops": s["flops"], "step": s}
                     ops.append(["exec_async", s["flops"], opts, h])
                     for c in s.get("ctl", []):
                         ops.append(["sleep", c["after"]])
                         if c["do"] == "suspend":
                             ctls.append({"h": h, "actor": name, "op": len(ops), "what": "suspend"})
                             ops.append(["suspend_act", h])
-                            ops.append(["sleep", c["for"]])
+                            left = c["for"]
+                            for c2 in c.get("inside", []):          # changes made while the execution is suspended
+                                ops.append(["sleep", c2["after"]])
+                                left -= c2["after"]
+                                ctls.append({"h": h, "actor": name, "op": len(ops), "what": c2["do"] + "-while-suspended"})
+                                ops.append(["update_prio", h, c2["value"]] if c2["do"] == "prio" else ["act_set_bound", h, c2["value"]])
+                            ops.append(["sleep", left])
                             ctls.append({"h": h, "actor": name, "op": len(ops), "what": "resume"})
                             ops.append(["resume_act", h])
                         elif c["do"] == "prio":
@@ -258,6 +398,7 @@ class C19(core.Prop):
                 meta[h]["info1"] = len(ops)
                 ops.append(["act_info", h])
             actors.append({"name": name, "host": a["host"], "ops": ops})
+        actors += case.get("extra_actors", [])          # replay files only
         sc = {"cfg": cfg, "platform": plat, "objects": {"mailbox": nmb}, "quiet": ["actor", "act", "adv", "onoff"], "actors": actors}
         if sample:
             sc["msample"] = {"rate": True, "raw": True}
@@ -311,6 +452,85 @@ class C19(core.Prop):
             labels.add("pstate-change")
         if any(m["kind"] == "comm" for m in meta.values()):
             labels.add("comm")
+        # ---- suspension windows versus the speed events of the host; closed form for executions that are alone on their host
+        plat_hosts = {h["name"]: h for h in case["platform"]["hosts"]}
+        p = Plat(case["platform"])
+        execs = {}
+        for h, m in meta.items():
+            i1 = rops.get((m["actor"], m["info1"])) if "info1" in m else None
+            if m["kind"] == "exec" and i1 is not None and "r" in i1 and T(i1["r"]["finish"]) >= 0:
+                execs[h] = dict(m, start=T(i1["r"]["start"]), finish=T(i1["r"]["finish"]), windows=[], others=False)
+        pend = {}
+        for c in ctls:
+            o = rops.get((c["actor"], c["op"]))
+            if o is None or c["h"] not in execs:
+                continue
+            e = execs[c["h"]]
+            if c["what"] == "suspend":
+                pend[c["h"]] = o["t_req"]
+            elif c["what"] == "resume" and c["h"] in pend:
+                ts = pend.pop(c["h"])
+                if ts < e["finish"]:
+                    e["windows"].append((ts, o["t_req"]))
+            elif c["what"] in ("bound", "bound-while-suspended"):
+                e["others"] = True
+        has_pstate = any(st_["op"] == "pstate" for a in case["actors"] for st_ in a["steps"])
+        tiny_all = sorted(set([0.0] + [o["t_ret"] for o in rops.values() if o["t_ret"] is not None]))
+        for h, e in sorted(execs.items()):
+            prof = plat_hosts[e["host"]].get("speed_profile")
+            alone_life = not any(h2 != h and e2["host"] == e["host"] and e2["start"] < e["finish"] and e2["finish"] > e["start"]
+                                 for h2, e2 in execs.items()) and all(m["kind"] != "exec" or m["host"] != e["host"] or hh in execs
+                                                                      for hh, m in meta.items())
+            for ts, tr in e["windows"]:
+                if prof is None or tr >= e["finish"]:
+                    continue
+                before, after = profile_scale(prof, ts), profile_scale(prof, tr)
+                evs = [d for d in profile_events(prof, ts, tr) if profile_scale(prof, d) != profile_scale(prof, d - 1e-6)]
+                if evs:
+                    labels.add("speed-event-while-suspended")
+                    if after > before:
+                        labels.add("increase-while-suspended")
+                    elif after < before:
+                        labels.add("decrease-while-suspended")
+                    if not any(h2 != h and e2["host"] == e["host"] and e2["start"] <= tr < e2["finish"] for h2, e2 in execs.items()):
+                        labels.add("alone-after-resume")
+                        if after > before:
+                            labels.add("increase-while-suspended+alone-after-resume")
+            # closed form: an execution that is alone on its host all its life progresses at speed x availability while it is not suspended
+            st_ = e["step"]
+            if os.environ.get("VF_C19_NO_CLOSED_FORM"):
+                continue          # (sensitivity runs: the differential alone)
+            if alone_life and not has_pstate and not e["others"] and "bound" not in st_ and "threads" not in st_ and e["finish"] > e["start"]:
+                S = p.speed(e["host"])
+                t, left, guard = e["start"], e["flops"], 0
+                wins = sorted(e["windows"])
+                horizon = e["finish"] + 1.0
+                cuts = sorted(set([x for w in wins for x in w] + (profile_events(prof, e["start"], horizon + 64.0) if prof else [])))
+                cuts = [x for x in cuts if x > t] + [math.inf]
+                exp = None
+                for nxt in cuts:
+                    susp = any(a <= t < b for a, b in wins)
+                    rate = 0.0 if susp else S * (profile_scale(prof, t) if prof else 1.0)
+                    if rate > 0 and left <= rate * (nxt - t) * (1 + 1e-15):
+                        exp = t + left / rate
+                        break
+                    if nxt == math.inf:
+                        break
+                    left -= rate * (nxt - t)
+                    t = nxt
+                if exp is not None:
+                    labels.add("closed-form-checked")
+                    tiny = sum(1 for x, y in zip(tiny_all, tiny_all[1:]) if y <= e["finish"] and y - x < 2 * model.PREC_T)
+                    tol = 2 * (1 + tiny) * model.PREC_T + 1e-9 * (exp - e["start"]) + 1e-12 * exp
+                    if abs(exp - e["finish"]) > tol:
+                        oc.bad("completion-differs-from-profile-integral:Lazy", "execution %d of %r flops alone on %s (speed %r, profile %r), started at %r, "
+                               "suspended over %r: completes at %r under the default configuration, the integral of speed x availability over "
+                               "the time it is not suspended gives %r (difference %.3g s)"
+                               % (h, e["flops"], e["host"], S, prof, e["start"], wins, e["finish"], exp, abs(exp - e["finish"])))
+                        oc.labels = sorted(labels)
+                        return oc
+        if any(c["what"].endswith("-while-suspended") for c in ctls):
+            labels.add("ctl-change-while-suspended")
         # signature = kind : update algorithms (selective-update variants folded) : feature of the case that names a known root cause
         feature = ""
         if case.get("host_info"):
